@@ -3,5 +3,5 @@
 From Coq Require Extraction.
 From Coq Require ExtrOcamlBasic.
 From RimeV Require Import Base.Bytes Eng.Keys Eng.Cand Eng.Segm Eng.Ctx Eng.Engine Eng.Trans Eng.Procs Eng.Api Eng.Oracle Eng.Spec.
-Extraction "eng_model.ml" byte_of_N N_of_byte step init_state synth_cfg synth_punct_cfg synth_kb_cfg synth_ascii_cfg synth_translate oracle_translate
+Extraction "eng_model.ml" byte_of_N N_of_byte step init_state synth_cfg synth_punct_cfg synth_kb_cfg synth_ascii_cfg synth_acedit_cfg synth_translate oracle_translate
   buf_empty buf_step handled_spec wf_viewb wf_view_utf8b.
